@@ -9,6 +9,8 @@ unwinding, optional merged ("summarised") calls for pure helper functions.
 import os, sys, os, re, struct, time, bisect, json, collections
 import z3
 import irparse
+import linarith
+USE_LIN = not os.environ.get('VERIF_NO_LINARITH')
 from irparse import V, Ty
 
 sys.setrecursionlimit(100000)
@@ -155,6 +157,7 @@ class Engine:
         s.syms = []
         s.nsym = 0
         s.pos = 0
+        s._model = None
         s.check_seq = 0
         s.steps = 0
         s.exc = None; s.caught = []
@@ -202,76 +205,105 @@ class Engine:
         if key is not None and not r: s.unsat_cache.add(key)
         return r
 
+    def model(s):
+        return s._model if s._model is not None else s.solver.model()
+
     def check_uncached(s, *assump):
+        """1. the path's incremental z3 solver with a short timeout (cheap for the many easy queries);
+           2. a portfolio of one-shot back ends run concurrently as subprocesses on the exported SMT-LIB2 query - z3 (full QF_BV
+              preprocessing, which incremental mode skips), cvc5 bit-blasting, cvc5 with the integer encoding of bit-vectors
+              (--solve-bv-as-int=sum, decisive for multiplication/division by constants) - first definite answer wins;
+              a sat answer is re-established in z3 by pinning every symbol to the reported model, so the model read is z3's own."""
         t = time.time()
-        first = min(s.timeout_ms, 200 if s.stats['z3_unknown'] >= 2 else 5000)
+        s._model = None
+        first = min(s.timeout_ms, 300 if s.stats['z3_unknown'] >= 2 else 2000)
         s.solver.set('timeout', first)
-        r = s.solver.check(*assump)
+        try: r = s.solver.check(*assump)
+        except z3.Z3Exception: r = z3.unknown      # seen when a timeout interrupts the simplifier
         s.stats['queries'] += 1
         if r == z3.unknown:
             s.stats['z3_unknown'] += 1
-            r = s.check_cvc5_int(assump)
-            if r == z3.unknown and s.timeout_ms > first:
+            r = s.check_portfolio(assump)
+            if r == z3.unknown:          # last resort: the incremental solver with the full budget
                 s.solver.set('timeout', s.timeout_ms)
-                r = s.solver.check(*assump)
+                try: r = s.solver.check(*assump)
+                except z3.Z3Exception: r = z3.unknown
         s.t_solver += time.time() - t
         if r == z3.unknown:
             dbg = os.environ.get('VERIF_DUMP_UNKNOWN')
             if dbg:
                 try:
+                    s2 = z3.Solver(); s2.add(s.solver.assertions())
+                    for a in assump: s2.add(a)
                     with open(dbg, 'w') as f:
-                        f.write(s.solver.to_smt2()); f.write('\n; assumptions: %s\n; stack: %s\n' % ([str(a)[:2000] for a in assump], s.stack_names()))
+                        f.write('(set-logic QF_BV)\n' + s2.to_smt2()); f.write('\n; stack: %s\n' % (s.stack_names(),))
                 except Exception: pass
-            raise EngineError('solver returned unknown: %s (in %s)' % (s.solver.reason_unknown(), '>'.join(s.stack_names()[-3:])))
+            raise EngineError('solver returned unknown (all back ends): %s (in %s)' % (s.solver.reason_unknown(), '>'.join(s.stack_names()[-3:])))
         return r == z3.sat
 
-    def check_cvc5_int(s, assump):
-        """second back end for queries on which z3's bit-blaster stalls (multiplication/division by constants):
-        cvc5 with the integer encoding of bit-vectors (--solve-bv-as-int=sum keeps mod-2^k semantics). unsat is taken as is;
-        sat is re-established in z3 by pinning every symbol to cvc5's model value, so the model the engine reads is z3's own."""
+    PORTFOLIO = [('z3', ['z3', '-smt2']), ('cvc5-int', ['cvc5', '--solve-bv-as-int=sum']), ('cvc5', ['cvc5'])]
+
+    def check_portfolio(s, assump):
         import subprocess, tempfile
+        logic = 'QF_UFBV' if s.ufs or s.redirect else 'QF_BV'
         s2 = z3.Solver()
         s2.add(s.solver.assertions())
         for a in assump: s2.add(a)
-        txt = '(set-option :produce-models true)\n(set-logic %s)\n' % ('QF_UFBV' if s.ufs else 'QF_BV') + s2.to_smt2().replace('(check-sat)', '') + '\n(check-sat)\n(get-model)\n'
+        txt = '(set-option :produce-models true)\n(set-logic %s)\n' % logic + s2.to_smt2().replace('(check-sat)', '') + '\n(check-sat)\n(get-model)\n'
+        # z3 prints its internal total-division operators; SMT-LIB 2.6 fixes x/0 and x%0 the same way, so the standard names are equivalent
+        for op in ('bvudiv', 'bvurem', 'bvsdiv', 'bvsrem', 'bvsmod'): txt = txt.replace(op + '_i', op)
         d = os.environ.get('VERIF_WORK') or tempfile.gettempdir()
         fn = os.path.join(d, 'q_%d.smt2' % os.getpid())
+        with open(fn, 'w') as f: f.write(txt)
+        limit = s.timeout_ms / 1000.0
+        procs = []
         try:
-            with open(fn, 'w') as f: f.write(txt)
-            try:
-                r = subprocess.run(['cvc5', '--solve-bv-as-int=sum', '--tlimit=%d' % min(s.timeout_ms, 60000), fn], capture_output=True, text=True, timeout=min(s.timeout_ms, 60000) / 1000 + 10)
-            except subprocess.TimeoutExpired:
-                return z3.unknown
+            for name, cmd in s.PORTFOLIO:
+                try: procs.append((name, subprocess.Popen(cmd + [fn], stdout=subprocess.PIPE, stderr=subprocess.PIPE, text=True)))
+                except OSError: pass
+            t0 = time.time(); verdict = z3.unknown; out = ''
+            live = list(procs)
+            while live and time.time() - t0 < limit:
+                progressed = False
+                for ent in list(live):
+                    name, p = ent
+                    if p.poll() is None: continue
+                    live.remove(ent); progressed = True
+                    o, e = p.communicate()
+                    if os.environ.get('VERIF_DEBUG'): sys.stderr.write('portfolio %s rc=%s %.1fs out=%r err=%r\n' % (name, p.returncode, time.time() - t0, o[:200], e[:200]))
+                    head = o.strip().split('\n', 1)[0].strip() if o.strip() else ''
+                    rest = o.strip().split('\n', 1)[1] if '\n' in o.strip() else ''
+                    if head == 'unsat' and '(error' not in e:
+                        errs = [l for l in rest.splitlines() if l.startswith('(error')]
+                        if all(('model' in l) for l in errs):       # only the reply to (get-model) after unsat is tolerated
+                            verdict = z3.unsat; s.stats['portfolio_' + name] += 1; break
+                    elif head == 'sat' and '(error' not in o and '(error' not in e:
+                        vals = {}
+                        for mm in re.finditer(r'\(define-fun\s+(\|[^|]*\||\S+)\s+\(\)\s+\(_\s+BitVec\s+(\d+)\)\s+(#x[0-9a-fA-F]+|#b[01]+)\s*\)', o):
+                            nm = mm.group(1).strip('|'); lit = mm.group(3)
+                            vals[nm] = int(lit[2:], 16 if lit[1] == 'x' else 2)
+                        pins = [c == vals[nm] for nm, w, c in s.syms if nm in vals]
+                        s3 = z3.SolverFor(logic); s3.set('timeout', 20000)
+                        s3.add(s.solver.assertions())
+                        for a in list(assump) + pins: s3.add(a)
+                        try: r2 = s3.check()
+                        except z3.Z3Exception: r2 = z3.unknown
+                        if r2 == z3.sat:
+                            s._model = s3.model(); verdict = z3.sat; s.stats['portfolio_' + name] += 1; break
+                if verdict != z3.unknown: break
+                if not progressed: time.sleep(0.01)
+            if os.environ.get('VERIF_SLOWQ') and time.time() - t0 > float(os.environ.get('VERIF_SLOWQ_T', '5')):
+                import shutil; shutil.copy(fn, os.path.join(os.environ['VERIF_SLOWQ'], 'slow_%d_%d.smt2' % (os.getpid(), s.stats['z3_unknown'])))
+            return verdict
         finally:
+            for name, p in procs:
+                if p.poll() is None:
+                    try: p.kill()
+                    except Exception: pass
+                try: p.communicate(timeout=5)
+                except Exception: pass
             try: os.unlink(fn)
             except Exception: pass
-        out = r.stdout
-        head = out.strip().split('\n', 1)[0].strip()
-        rest = out.strip().split('\n', 1)[1] if '\n' in out.strip() else ''
-        s.stats['cvc5_queries'] += 1
-        if head == 'unsat' and '(error' not in r.stderr:
-            # the only (error ...) tolerated is the reply to (get-model) after unsat
-            errs = [l for l in rest.splitlines() if l.startswith('(error')]
-            if all('Cannot get model' in l for l in errs):
-                s.stats['cvc5_unsat'] += 1
-                return z3.unsat
-            return z3.unknown
-        if '(error' in out or '(error' in r.stderr:
-            if os.environ.get('VERIF_DEBUG'): sys.stderr.write('cvc5: ' + out[:500] + r.stderr[:500] + '\n')
-            return z3.unknown
-        if head != 'sat': return z3.unknown
-        vals = {}
-        for mm in re.finditer(r'\(define-fun\s+(\|[^|]*\||\S+)\s+\(\)\s+\(_ BitVec (\d+)\)\s+(#x[0-9a-fA-F]+|#b[01]+)\)', out):
-            nm = mm.group(1).strip('|'); lit = mm.group(3)
-            vals[nm] = int(lit[2:], 16 if lit[1] == 'x' else 2)
-        pins = [c == vals[nm] for nm, w, c in s.syms if nm in vals]
-        s.solver.set('timeout', 20000)
-        r2 = s.solver.check(*(list(assump) + pins))
-        if r2 == z3.sat:
-            s.stats['cvc5_sat'] += 1
-            s._pinned = pins
-            return z3.sat
-        return z3.unknown
 
     def decide(s, mk_alts, why=''):
         if s.pos < len(s.trace): d = s.trace[s.pos]
@@ -308,7 +340,7 @@ class Engine:
             s.solver.push()
             try:
                 while s.check():
-                    v = s.solver.model().eval(e, model_completion=True).as_long()
+                    v = s.model().eval(e, model_completion=True).as_long()
                     vals.append(v)
                     if len(vals) > cap:
                         raise EngineError('enumeration cap %d exceeded for %s (%s)' % (cap, why, str(e)[:80]))
@@ -334,7 +366,7 @@ class Engine:
             if not s.check(cond): return False
         else:
             if not s.check(): return False
-        mv = s.model_values(s.solver.model())
+        mv = s.model_values(s.model())
         s.path_viol.append({'kind': kind, 'msg': msg, 'model': mv, 'stack': s.stack_names()})
         return True
 
@@ -427,7 +459,7 @@ class Engine:
                 s.solver.push()
                 try:
                     while s.check():
-                        a = s.solver.model().eval(addr, model_completion=True).as_long()
+                        a = s.model().eval(addr, model_completion=True).as_long()
                         oo = s.find(a)
                         if oo is None:
                             objs.append(('none', a)); break
@@ -595,6 +627,7 @@ class Engine:
         return [sym_byte(sym[off + i]) if (off + i) in sym else o.data[off + i] for i in range(n)]
 
     def read_cstr(s, addr, maxn=4096):
+        if not isinstance(addr, int): addr = s.concretize(addr, why='string pointer')   # select between literals: fork
         o, off = s.locate(addr, 1)
         end = o.data.find(b'\0', off)
         if end < 0: end = o.size
@@ -891,6 +924,9 @@ def sym_binop(E, op, a, b, w, flags):
             elif 'nuw' in flags: ub = z3.Not(z3.BVMulNoOverflow(x, y, False))
         elif op in ('shl', 'lshr', 'ashr'):
             ub = z3.UGE(y, z3.BitVecVal(w, w))
+        if ub is not None and USE_LIN and op in ('add', 'sub', 'mul') and w >= 32 and linarith.no_wrap(op, z3.simplify(x), z3.simplify(y), w, 'nsw' in flags):
+            E.stats['ub_obligations'] += 1; E.stats['ub_by_bounds'] += 1
+            ub = None
         if ub is not None:
             E.stats['ub_obligations'] += 1
             if E.check(ub):
@@ -966,12 +1002,15 @@ def compile_ins(E, cf, m, slot, ins):
     if op == 'icmp':
         t = m.resolve(ins.t); w = 64 if t.k == 'ptr' else t.a
         d = slot(ins.res); ca, va = O(ins.a); cb, vb = O(ins.b)
-        fc = ICMP_CONC[ins.pred]; fs = ICMP_SYM[ins.pred]
+        fc = ICMP_CONC[ins.pred]; fs = ICMP_SYM[ins.pred]; pred_ = ins.pred
         def run(fr):
             regs = fr.regs
             a = va if ca else regs[va]; b = vb if cb else regs[vb]
             if a.__class__ is int and b.__class__ is int: regs[d] = 1 if fc(a, b, w) else 0
-            else: regs[d] = norm(fs(to_bv(a, w), to_bv(b, w)))
+            else:
+                x = to_bv(a, w); y = to_bv(b, w)
+                r = linarith.narrow_cmp(pred_, z3.simplify(x), z3.simplify(y), w, E.stats) if (USE_LIN and w >= 32) else None
+                regs[d] = norm(r if r is not None else fs(x, y))
         return run
     if op == 'fcmp':
         d = slot(ins.res); ca, va = O(ins.a); cb, vb = O(ins.b)
@@ -1576,7 +1615,7 @@ def run_path(E, entry, args):
     if res.status in ('ok', 'uncaught'):
         # sample model of this path (for native validation)
         if E.check():
-            mdl = E.solver.model()
+            mdl = E.model()
             res.model = E.model_values(mdl)
             res.observed = [(t, v if isinstance(v, int) else mdl.eval(to_bv(v, 64), model_completion=True).as_long()) for t, v in E.observed]
         else:
